@@ -70,7 +70,9 @@ theorem newSortedInts_spec (x : List Int) :
     ∃ r, newSortedInts x = .ok r ∧ SS r ∧ ∀ y, y ∈ r ↔ y ∈ x :=
   newSortedInts_result x
 
-/-- `Range(start, end, step)` for every triple that is not rejected as an infinite set does not panic (in
+/-- `Range(start, end, step)` for every triple that is not rejected as an infinite set — the rejection test the
+model runs is the condition of the source, regenerated into `Gen.Sort.rangeRejects`, and is proved to be the
+documented one (`rangeRejects_iff`) — does not panic (in
 particular the `make` capacities are non-negative and the loops terminate within the fuel given) and returns
 the canonical representation of `{start + k*step | k ≥ 0} ∩ [start, end)`, resp. `∩ (end, start]` for a
 descending range (this is `InRange start end step x` of `Spec/SortInts.lean`, written out). -/
@@ -113,15 +115,25 @@ end SortInts
 
 namespace IntSort
 
-/-! ## ints.Sort -/
+/-! ## ints.Sort
 
-/-- `Sort` only permutes: every write in `ints/int_sort.go` is a swap, so whenever the call returns, the
-slice is a permutation of its old content. -/
-theorem sort_perm (d d' : Array Int) (h : sort d = .ok d') : d'.toList.Perm d.toList :=
+The model takes the literal constants of `ints/int_sort.go` from a configuration `Cfg`; the driver runs it with
+`genCfg`, regenerated from the source on every run (`Gen/SortConsts.lean`).  The theorems are proved for EVERY
+configuration satisfying `Cfg.Admissible` (`Spec/IntSort.lean`: the whole range of values of the tuning constants for
+which the algorithm works, and the values the algorithm dictates for the heap arithmetic and the midpoint), and
+`gen_admissible` checks that the constants found in the source now are admissible. -/
+
+/-- every constant was located in the source, and the values found there are admissible -/
+theorem gen_admissible : Gen.Sort.allFound = true ∧ genCfg.Admissible := by decide
+
+/-- `Sort` only permutes, whatever the constants: every write in `ints/int_sort.go` is a swap, so whenever the call
+returns, the slice is a permutation of its old content. -/
+theorem sort_perm (cf : Cfg) (d d' : Array Int) (h : sort cf d = .ok d') : d'.toList.Perm d.toList :=
   sort_perm_toList h
 
-example : sort #[2, 1] = .ok #[1, 2] := by
-  simp [sort, maxDepth, maxDepthLoop, quickSort, shellPass, insertionSort, insertOuter, insertInner, lt, get, swap]
+example : sort genCfg #[2, 1] = .ok #[1, 2] := by
+  simp [sort, maxDepth, maxDepthLoop, quickSort, shellPass, insertionSort, insertOuter, insertInner, lt, get, swap,
+    genCfg, Gen.Sort.qsSmall, Gen.Sort.qsMin, Gen.Sort.shellGap, Gen.Sort.mdShift, Gen.Sort.mdMul]
 
 /-- `insertionSort(data, a, b)` on every valid range `0 ≤ a`, `b ≤ len(data)`: it does not panic, `data[a:b]`
 is sorted afterwards (`SortedOn`), nothing outside `[a,b)` moves and every element of the range comes from the
@@ -132,37 +144,53 @@ theorem insertionSort_sorted (d : Array Int) (a b : Int) (h0 : 0 ≤ a) (hb : b 
 
 /-- `heapSort(data, a, b)` on every valid range `0 ≤ a ≤ b ≤ len(data)`: it does not panic, the fuel given to
 the `siftDown` loop suffices, `data[a:b]` is sorted afterwards and only `data[a:b]` is rearranged. -/
-theorem heapSort_sorted (d : Array Int) (a b : Int) (h0 : 0 ≤ a) (hab : a ≤ b) (hb : b ≤ d.size) :
-    ∃ d', heapSort d a b = .ok d' ∧ RP a b d d' ∧ SortedOn a b d' :=
-  heapSort_spec d a b h0 hab hb
+theorem heapSort_sorted (cf : Cfg) (hadm : cf.Admissible) (d : Array Int) (a b : Int) (h0 : 0 ≤ a) (hab : a ≤ b)
+    (hb : b ≤ d.size) :
+    ∃ d', heapSort cf d a b = .ok d' ∧ RP a b d d' ∧ SortedOn a b d' := by
+  obtain ⟨_, _, _, _, _, _, _, _, hm, ha, hsb, hbo, _⟩ := hadm
+  exact heapSort_spec cf ⟨hm, ha, hsb⟩ hbo d a b h0 hab hb
 
 example : (0 : Int) ≤ 1 ∧ (1 : Int) ≤ 4 ∧ (4 : Int) ≤ (#[9, 8, 7, 6, 5] : Array Int).size := by decide
 
-/-- the three-way partition contract of `doPivot(data, lo, hi)` on every range with more than 12 elements (the
-only ranges `quickSort` calls it with): it does not panic, its loops stay within their fuel, it only rearranges
+/-- the partition contract of `doPivot(data, lo, hi)` on every range with at least 3 elements (`quickSort` calls it
+with more than `qsSmall ≥ 2` elements): it does not panic, its loops stay within their fuel, it only rearranges
 `data[lo:hi]`, returns `lo ≤ midlo ≤ midhi ≤ hi` and leaves `data[lo:midlo] ≤ data[midlo:midhi] ≤
 data[midhi:hi]` element-wise with `data[midlo:midhi]` constant (`PivotOK`, `Spec/IntSort.lean`). -/
-theorem doPivot_contract (d : Array Int) (lo hi : Int) (hlo : 0 ≤ lo) (hbig : hi - lo > 12) (hsz : hi ≤ d.size) :
-    PivotOK d lo hi :=
-  doPivot_spec d lo hi hlo hbig hsz
+theorem doPivot_contract (cf : Cfg) (hadm : cf.Admissible) (d : Array Int) (lo hi : Int) (hlo : 0 ≤ lo)
+    (hbig : hi - lo ≥ 3) (hsz : hi ≤ d.size) :
+    PivotOK cf d lo hi := by
+  obtain ⟨_, _, _, hps, hD, hM0, hMD, hQ, _⟩ := hadm
+  exact doPivot_spec cf hps hD hM0 hMD hQ d lo hi hlo hbig hsz
 
 /-- `quickSort(data, a, b, maxDepth)` on every valid range with fuel above `maxDepth`: no panic, no fuel
 exhaustion, `data[a:b]` sorted, only `data[a:b]` rearranged. -/
-theorem quickSort_sorted (f : Nat) (d : Array Int) (a b : Int) (md : Nat) (h0 : 0 ≤ a) (hab : a ≤ b)
-    (hb : b ≤ d.size) (hmd : md < f) :
-    ∃ d', quickSort f d a b md = .ok d' ∧ RP a b d d' ∧ SortedOn a b d' :=
-  quickSort_spec doPivot_spec f d a b md h0 hab hb hmd
+theorem quickSort_sorted (cf : Cfg) (hadm : cf.Admissible) (f : Nat) (d : Array Int) (a b : Int) (md : Nat)
+    (h0 : 0 ≤ a) (hab : a ≤ b) (hb : b ≤ d.size) (hmd : md < f) :
+    ∃ d', quickSort cf f d a b md = .ok d' ∧ RP a b d d' ∧ SortedOn a b d' := by
+  have hadm' := hadm
+  obtain ⟨hT, hK, hG, hps, hD, hM0, hMD, hQ, hm, ha, hsb, hbo, hS⟩ := hadm
+  exact quickSort_spec cf ⟨hm, ha, hsb⟩ hbo hK hG
+    (fun d lo hi h0 hbig hsz => doPivot_contract cf hadm' d lo hi h0 (by omega) hsz) f d a b md h0 hab hb hmd
 
-/-- `ints.Sort` at full strength, for EVERY slice: the call returns (no panic; the fuel given to every loop of
-the model suffices), the result is sorted and it is a permutation of the input. -/
+example : genCfg.Admissible ∧ (0 : Int) ≤ 0 ∧ (13 : Int) - 0 ≥ 3 ∧ (13 : Int) ≤ (Array.replicate 13 (0 : Int)).size := by
+  decide
+
+/-- `ints.Sort` at full strength, for EVERY slice, with the constants of the source as it is now: the call returns
+(no panic; the fuel given to every loop of the model suffices), the result is sorted and it is a permutation of the
+input. -/
 theorem sort_sorted (d : Array Int) :
-    ∃ d', sort d = .ok d' ∧ d'.toList.Pairwise (· ≤ ·) ∧ d'.toList.Perm d.toList :=
-  sort_full d
+    ∃ d', sort genCfg d = .ok d' ∧ d'.toList.Pairwise (· ≤ ·) ∧ d'.toList.Perm d.toList :=
+  sort_full genCfg gen_admissible.2 d
+
+/-- the same for every admissible configuration (a retuned threshold, gap, ninther bound, …) -/
+theorem sort_sorted_any (cf : Cfg) (hadm : cf.Admissible) (d : Array Int) :
+    ∃ d', sort cf d = .ok d' ∧ d'.toList.Pairwise (· ≤ ·) ∧ d'.toList.Perm d.toList :=
+  sort_full cf hadm d
 
 /-- "orders any slice like the standard library": the result is the value of the model of `sort.Ints`
 (`SortInts.sortInts`, the unique sorted permutation). -/
-theorem sort_eq_sortInts (d : Array Int) : sort d = .ok (SortInts.sortInts d.toList).toArray := by
-  obtain ⟨d', hr, hs, hp⟩ := sort_full d
+theorem sort_eq_sortInts (d : Array Int) : sort genCfg d = .ok (SortInts.sortInts d.toList).toArray := by
+  obtain ⟨d', hr, hs, hp⟩ := sort_sorted d
   rw [hr]
   congr 1
   have : d'.toList = SortInts.sortInts d.toList := by
@@ -175,7 +203,5 @@ theorem sort_eq_sortInts (d : Array Int) : sort d = .ok (SortInts.sortInts d.toL
 theorem sortedOn_iff (d : Array Int) (a b : Nat) (hb : b ≤ d.size) :
     SortedOn a b d ↔ ((d.toList.drop a).take (b - a)).Pairwise (· ≤ ·) :=
   sortedOn_iff_slice d a b hb
-
-example : (0 : Int) ≤ 0 ∧ (13 : Int) - 0 > 12 ∧ (13 : Int) ≤ (Array.replicate 13 (0 : Int)).size := by decide
 
 end IntSort
